@@ -201,14 +201,104 @@ def genRows : Gen (List (Int × Int)) := do
   let n ← rand 5
   genList (n + 12) (do pure ((← randInt 0 2), (← randInt 0 3)))
 
-def mkPgCase (id stratum : String) (p : Pg) (kf : Bool) : Case :=
-  let o := Impl.obs (Impl.evalPg p)
+def mkPgCase (id stratum : String) (p : Pg) (kf : Bool) (rep : Nat := 1) : Case :=
+  let o := Impl.obsPg p
   { id := id, cls := if kf then "KF-superimposed" else "good", kind := "run", stratum := stratum, model := o, spec := o,
-    payload := [p.src] }
+    payload := if rep ≤ 1 then [p.src] else [p.src, "x" ++ toString rep] }
+
+/-! ### numeric reducers (the result must not depend on the order in which the members are folded) -/
+
+/-- `n` without its factors 2 and 5 -/
+def oddPart5 (n : Nat) : Nat := Id.run do
+  let mut m := n
+  for _ in [0:8] do
+    if m != 0 && m % 2 == 0 then m := m / 2
+  for _ in [0:4] do
+    if m != 0 && m % 5 == 0 then m := m / 5
+  pure m
+
+/-- move one member so that the mean is a terminating decimal: the sum becomes a multiple of the part of `n` prime to 10 -/
+def fixMean (us : List Int) : List Int :=
+  let m : Int := (oddPart5 us.length : Nat)
+  if m ≤ 1 then us
+  else
+    let r := (us.foldl (· + ·) 0) % m
+    if r == 0 then us
+    else match us.find? (fun u => !us.contains (u - r)) with
+      | some u => us.map (fun x => if x == u then u - r else x)
+      | none => us
+
+def genNumCase (idx : Nat) : Gen Case := do
+  if (← chance 2 3) then
+    let n ← rand 9
+    let pool ← shuffle (List.range 150)
+    let us : List Int := (pool.take (n + 12)).map (fun k => (Int.ofNat k) - 30)
+    let scale ← pick [1, 1, 1, 2, 4]
+    let op ← pick [0, 1, 1, 1, 2, 3, 4, 5]
+    let us := if op == 1 then fixMean us else us
+    let op := if op == 1 && !terminates (us.foldl (· + ·) 0) (scale * us.length) then 0 else op
+    pure (mkPgCase s!"C07-p{idx}" s!"numred/{if op == 5 then "count" else redName op}/s{scale}" (.numred us scale op) false 2)
+  else
+    let rows ← genRows
+    let op ← pick [0, 1, 1, 2, 3, 4, 5]
+    let op := if op == 1 && !terminates ((rows.map (·.2)).foldl (· + ·) 0) rows.length then 2 else op
+    pure (mkPgCase s!"C07-p{idx}" s!"numrel/{if op == 5 then "count" else redName op}" (.numrel rows op) false 2)
+
+/-! ### the same inner value in several spellings inside a big outer set / dictionary -/
+
+/-- 2–3 spellings (member orders, literal forms) of one mixed-kind value -/
+def genSpellings : Gen (List Val) := do
+  let i ← randInt 0 3
+  let num (k : Int) := ofLitVal (.num k)
+  let kind ← rand 5
+  match kind with
+  | 0 | 1 => do
+    -- a union set: numbers, tuples, strings, arrays, a nested set
+    let all : List Val := [num i, ofLitVal (.tup [("a", .num i)]), ofLitVal (.str 0 [97 + i.toNat]), ofLitVal (.arr 0 [some (.num i)]),
+      ofLitVal (.set [.num 1, .tup [("b", .num 2)]]), ofLitVal (.tup [("a", .num 1), ("b", .num i)])]
+    let k ← rand 4
+    let ms := (← shuffle all).take (k + 2)
+    pure [setVal ms, setVal ms.reverse, setVal (← shuffle ms)]
+  | 2 => do
+    -- a tuple with a set-valued attribute
+    let ms : List Val := [num i, ofLitVal (.tup [("a", .num 1)]), ofLitVal (.str 0 [98])]
+    pure [tupVal [("s", setVal ms), ("n", num 1)], tupVal [("n", num 1), ("s", setVal ms.reverse)],
+          tupVal [("s", setVal (← shuffle ms)), ("n", num 1)]]
+  | 3 => do
+    -- a dictionary with keys of several kinds
+    let kvs : List (Lit × Lit) := [(.num i, .str 0 [97]), (.tup [("a", .num 1)], .num 2), (.str 0 [107], .set [.num 1, .tup []]),
+      (.set [.num 1, .str 0 [97]], .num 3)]
+    pure [ofLitVal (.dict kvs), ofLitVal (.dict kvs.reverse), ofLitVal (.dict (← shuffle kvs))]
+  | _ => do
+    -- a relation: heading literal, columns swapped, a set of tuples
+    let rows : List (List Int) := [[1, i], [2, 1], [i + 1, 2]].eraseDups
+    let swapped := ofLitVal (.rel ["b", "a"] (rows.reverse.map (fun r => (r.reverse.map Lit.num))))
+    pure [litRelVal ["a", "b"] rows false, swapped, litRelVal ["a", "b"] (← shuffle rows) true]
+
+def genDupCase (idx : Nat) : Gen Case := do
+  let sp ← genSpellings
+  let s1 := sp.getD 0 default
+  let s2 := sp.getD 1 default
+  let s3 := sp.getD 2 default
+  let n ← rand 5
+  let fill := ((← shuffle numStrPool).take (n + 12)).zipIdx.map (fun (v, j) => ((v.src, v.rep), (Int.ofNat j)))
+  let e (v : Val) : (String × Rep) × Int := ((v.src, v.rep), 77)
+  let mode ← rand 9
+  let (o1, o2) ← match mode with
+    | 0 | 4 => do
+      let three ← chance 1 2
+      pure (← shuffle (fill ++ [e s1, e s2] ++ (if three then [e s3] else [])), [])
+    | 2 => do
+      let k ← rand 4
+      pure (← shuffle (fill ++ [e s1]), ← shuffle (fill.drop k ++ [e s2]))
+    | _ => do pure (← shuffle (fill ++ [e s1]), ← shuffle (fill ++ [e s2]))
+  pure (mkPgCase s!"C07-p{idx}" s!"dup/m{mode}" (.dup o1 o2 (s3.src, s3.rep) mode) false 3)
 
 def genPgCase (idx : Nat) : Gen Case := do
-  let r ← rand 12
+  let r ← rand 20
   match r with
+  | 12 | 13 | 14 | 15 => genNumCase idx
+  | 16 | 17 | 18 | 19 => genDupCase idx
   | 0 | 1 | 2 | 3 => do
     -- set patterns over 12–16 numbers/strings plus (sometimes) one other value
     let n ← rand 5
